@@ -1151,7 +1151,7 @@ def _inline_locals(fn, q, ref_locals, stats):
     _set_parents(fn)
     changed = True
     rounds = 0
-    while changed and rounds < 4:
+    while changed and rounds < 60:
         changed = False
         rounds += 1
         try:
@@ -1208,6 +1208,48 @@ def _inline_one_local(fn, g, nm, stats):
             by_def.setdefault(id(st), (st, []))[1].append(u)
     except Exception:
         return False
+    def stores_in(nodes):
+        out = set()
+        for n in nodes:
+            tgts = []
+            if isinstance(n, ast.Assign):
+                tgts = n.targets
+            elif isinstance(n, (ast.AugAssign, ast.AnnAssign)):
+                tgts = [n.target]
+            elif isinstance(n, ast.Delete):
+                tgts = n.targets
+            elif isinstance(n, ast.For):
+                tgts = [n.target]
+            for t in tgts:
+                for x in (ast.walk(t) if isinstance(t, (ast.Tuple, ast.List)) else [t]):
+                    if isinstance(x, (ast.Attribute, ast.Subscript)):
+                        out.add(ast.unparse(x))
+        return out
+
+    def span_of(st, us):
+        """statements strictly after the definition up to (not including) the last statement that reads it, when all
+        of this happens in one block; None otherwise"""
+        blk = _block_of(st)
+        if blk is None:
+            return None
+        tops = []
+        for u in us:
+            top = u
+            while top is not None and not any(top is x for x in blk):
+                top = getattr(top, "_parent", None)
+            if top is None:
+                return None
+            tops.append(top)
+        i0 = [i for i, x in enumerate(blk) if x is st][0]
+        idx = [i for i, x in enumerate(blk) if any(x is t_ for t_ in tops)]
+        if not idx or min(idx) <= i0:
+            return None
+        # the last reading statement itself evaluates its value before it stores: only a compound statement (if / for)
+        # can store before a later read inside it
+        last = blk[max(idx)]
+        inner = [] if isinstance(last, (ast.Assign, ast.AugAssign, ast.Expr, ast.Return)) else [last]
+        return blk[i0 + 1:max(idx)] + inner
+
     # rebinding stores of the function (for the path test)
     stored_paths = set()
     for n in _own_walk(fn):
@@ -1241,7 +1283,9 @@ def _inline_one_local(fn, g, nm, stats):
         except Exception:
             return False
         # nothing rebinds a path that E reads (a store deeper than the path mutates the same object: fine)
-        if {p for p in _paths(E) if "." in p or "[" in p} & stored_paths:
+        sp = span_of(st, us)
+        relevant = stored_paths if sp is None else stores_in([n for s_ in sp for n in ast.walk(s_)])
+        if {p for p in _paths(E) if "." in p or "[" in p} & relevant:
             return False
         # `d[k]` on a defaultdict inserts k: moving it from the definition to the uses changes what a later `k in d`
         # sees.  Unless the container is known to be a plain dict / list, a subscript is not moved when the function
@@ -1253,7 +1297,24 @@ def _inline_one_local(fn, g, nm, stats):
             rtxt = ast.unparse(root)
             if _known_plain_container(fn, rtxt):
                 continue
-            for n in _own_walk(fn):
+            # only what lies between the definition and its uses matters (same block): a membership test elsewhere
+            # cannot observe the difference
+            blk = _block_of(st)
+            span = None
+            if blk is not None:
+                tops = []
+                for u in us:
+                    top = u
+                    while top is not None and not any(top is x for x in blk):
+                        top = getattr(top, "_parent", None)
+                    tops.append(top)
+                if all(t_ is not None for t_ in tops):
+                    i0 = [i for i, x in enumerate(blk) if x is st][0]
+                    i1 = max([i for i, x in enumerate(blk) if any(x is t_ for t_ in tops)])
+                    if i1 > i0:
+                        span = blk[i0 + 1:i1 + 1]
+            scan = [n for s_ in span for n in ast.walk(s_)] if span is not None else list(_own_walk(fn))
+            for n in scan:
                 if isinstance(n, ast.Compare) and any(isinstance(o, (ast.In, ast.NotIn)) for o in n.ops) and \
                         any(ast.unparse(c).startswith(rtxt) for c in n.comparators):
                     return False
